@@ -174,6 +174,8 @@ m('ppc-encoder-other-operand', 'C11', 'FILTER-INVERSE', 'src/filter/bcj/ppc.rs',
 m('delta-encode-stores-filtered', 'C11', 'FILTER-INVERSE', 'src/filter/delta.rs', '            self.history[pos & DIS_MASK] = original;', '            self.history[pos & DIS_MASK] = *item;', 'Delta:encode~decode')
 m('bcj-reader-encodes', 'C11', 'FILTER-INVERSE', 'src/filter/bcj.rs', 'Self::new(inner, BCJFilter::new_sparc(start_pos, false))', 'Self::new(inner, BCJFilter::new_sparc(start_pos, true))', 'BCJ:new_sparc')
 
+m('empty-preset-waives-reset', 'C19', 'PRESET-TWIN', 'src/enc/lzma2_writer.rs', 'if let Some(preset_dict) = lzma_options.preset_dict.as_ref().filter(|d| !d.is_empty()) {', 'if let Some(preset_dict) = &lzma_options.preset_dict {', 'LZMA2Writer::new:reset-waived-only-for-nonempty-preset')
+
 M = [x for x in M if x['old'] is not None]
 
 
